@@ -45,6 +45,25 @@ def products_of_partial_sums():
     return _POPS
 
 
+def rename(prog, tmap, imap):
+    def rec(t):
+        if t[0] == "t":
+            return ("t", tmap.get(t[1], t[1]), tuple(imap.get(i, i) for i in t[2]))
+        if t[0] == "n":
+            return t
+        return (t[0], rec(t[1]), rec(t[2]))
+
+    return (tmap.get(prog[0], prog[0]), tuple(imap.get(i, i) for i in prog[1]), rec(prog[2]))
+
+
+def renamed_base():
+    """The base space under the reversed naming (target z, operands y x w, indexes i <-> k): names
+    reach the code only through dict order, set hashing and sorting, which this permutes."""
+    tmap = {"a": "z", "b": "y", "c": "x", "d": "w", "e": "v"}
+    imap = {"i": "k", "k": "i"}
+    return [rename(p, tmap, imap) for p in space.enumerate_programs(2, 3)]
+
+
 def dedupe(progs):
     seen = set()
     out = []
@@ -71,6 +90,7 @@ def programs(tier: str, flavour: str = "full"):
             progs += P(1, 6, min_total_order=6)
             # 4-leaf products of two sums, each with a term that lacks a contracted index (128 programs)
             progs += products_of_partial_sums()
+            progs += renamed_base()
     else:
         if flavour == "light":
             progs = P(2, 4) + P(3, 3, min_leaves=3, repeats=False) + P(2, 5, min_total_order=5, repeats=False, ops="+*")
@@ -82,6 +102,9 @@ def programs(tier: str, flavour: str = "full"):
             progs += P(4, 3, min_leaves=4, repeats=False, ops="+*")
             progs += P(2, 4, literals=LITS_THOROUGH, min_leaves=2)
             progs += P(3, 3, literals=("2", "2.5"), min_leaves=3, repeats=False)
+            progs += P(1, 6, min_total_order=6)
+            progs += products_of_partial_sums()
+            progs += renamed_base()
     # literals whose int32 lowering overflows: 65536 * 65536, 2^32 (the shortcut in identifiable_expression/_to_ir.py)
     progs += P(3, 1, literals=("65536",), min_leaves=3, ops="*", repeats=False, target_orders=(0, 1))
     progs += P(2, 1, literals=("4294967296", "99999999999"), min_leaves=2, ops="*+", repeats=False, target_orders=(0, 1))
@@ -93,7 +116,7 @@ def programs(tier: str, flavour: str = "full"):
 def describe(tier, flavour):
     return {
         "quick/full": "L<=2,S<=4 all shapes incl. repeated tensors; L=3,S<=3; literals {0,2,2.5} with L<=2,S<=3 and "
-                      "{2} with L=3,S<=2; all order-3 copies/transposes (L=1,S=6); the 128 4-leaf products of partial sums (b() + c(i)) * (d() + e(i)); int32-overflowing literals",
+                      "{2} with L=3,S<=2; all order-3 copies/transposes (L=1,S=6); the 128 4-leaf products of partial sums (b() + c(i)) * (d() + e(i)); the L<=2,S<=3 space again under a reversed naming (z = y.., i<->k); int32-overflowing literals",
         "quick/light": "L<=2,S<=3; L=2,S=4 (+,*; no repeats); L=3,S<=2 (+,*); literal 2 with L=2,S<=2",
         "thorough/full": "L<=2,S<=5; L=3,S<=4; L=2,S=6 (+,*); L=4,S<=3 (+,*); literals {0,1,2,2.5,0.0} L<=2,S<=4; "
                          "{2,2.5} L=3,S<=3",
